@@ -282,6 +282,16 @@ impl G<'_> {
         for b in bad {
             self.fail("C06-stream-bound", b);
         }
+        // a known final size bounds what was received and what was handed to the application
+        for (id, rcv) in &v.recv {
+            let g = |k: &str| rcv.get(k).and_then(|x| x.parse::<u64>().ok()).unwrap_or(0);
+            let fin_known: Option<u64> = rcv.get("st").and_then(|s| s.split(':').nth(1)).and_then(|s| s.parse().ok());
+            if let Some(f) = fin_known {
+                if g("end") > f || g("br") > f {
+                    self.fail("C06-final-size-below-received", format!("stream {id} final size {f} but end={} bytes_read={} after {line}", g("end"), g("br")));
+                }
+            }
+        }
         if buffered > self.max_rw as u128 {
             self.fail("C06-buffered-exceeds-receive-window", format!("buffered unread={buffered} > receive window {} after {line}", self.max_rw));
         }
@@ -545,7 +555,9 @@ impl G<'_> {
         }
         if let Some(st) = prev.rs(id, "st") {
             if st.starts_with("r:") && !over_count {
-                let final_err = fin_known.map_or(false, |f| tgt_end > f || (fin && tgt_end != f));
+                // RFC 9000 4.5: data beyond the final size, a different final size, or a final size
+                // below data already received
+                let final_err = fin_known.map_or(false, |f| tgt_end > f || (fin && tgt_end != f)) || (fin && tgt_end < end);
                 let new_bytes = tgt_end.saturating_sub(end);
                 let flow_err = tgt_end > sm || prev.n("dr").saturating_add(new_bytes) > prev.n("lmd");
                 let expect = if tgt_end >= 1 << 62 {
@@ -1133,6 +1145,13 @@ impl G<'_> {
             self.op("maxsd 4001 5");
             self.op("poll");
             self.op("accept bi");
+        }
+        // fin-below-received: 100 bytes received, then a FIN announcing final size 50
+        if self.start(1, 2, 2, 1000, 1000, 1000) {
+            self.apply_params([100, 100, 100, 2, 2, 1000]);
+            self.op("stream 0 0 100 0");
+            self.op("stream 0 0 50 1");
+            self.op("read 0 200");
         }
         // F15: 59 bytes received, reset with final size 59 (credited), then stopped (credited again)
         if self.start(1, 2, 2, 100, 59, 2002) {
